@@ -21,7 +21,7 @@ func init() { gens["C02"] = genC02 }
 type c02File struct {
 	Name    string      `json:"name"`
 	Labels  [][2]string `json:"labels,omitempty"`
-	Content string      `json:"content"`        // Go-quoted
+	Content string      `json:"content"` // Go-quoted
 	Take    *int        `json:"take,omitempty"` // the caller stops after this many Scans, then Resets
 }
 type c02Input struct {
@@ -369,9 +369,79 @@ func c02BenchLine(r *hx.Rng) string {
 	return sb.String()
 }
 
-func c02KVLine(r *hx.Rng) string {
+// rune pools for keys of key/value lines, by what unicode.IsLower / IsUpper /
+// IsSpace say about them (Ll / Lu / Lt / letters and symbols that are neither,
+// incl. Other_Lowercase and Other_Uppercase code points / white space)
+var c02RuneClasses = []struct {
+	name  string
+	runes []rune
+}{
+	{"ascii-lower", []rune("abkz")},
+	{"ascii-upper", []rune("AKZ")},
+	{"nonascii-lower", []rune{'é', 'ß', 'δ', 'я', 'ǆ', 'ÿ', 'µ', 'ſ', 'ա', '𝐚'}},
+	{"nonascii-upper", []rune{'Δ', 'É', 'Я', 'Ǆ', 'Ω', 'Ÿ', 'Ա', '𝐀', 'Ⴀ'}},
+	{"titlecase", []rune{'ǅ', 'ǈ', 'ǲ', 'ᾈ'}},
+	{"caseless-or-other-case", []rune{'漢', 'ª', 'º', 'ʰ', 'ⅰ', 'Ⅰ', 'Ⓐ', 'ⓐ', 'ا', '1', '_', '-', '.', '\u0301', '\u200b'}},
+	{"nonascii-space", []rune{'\u00a0', '\u2003', '\u0085', '\u3000', '\u1680', '\u2028', '\u202f', '\u205f'}},
+	{"ascii-space", []rune{' ', '\t', '\v', '\f'}},
+}
+
+// c02MixedKey builds a key of 1-4 runes; the first mostly lower case (ASCII or
+// not), the others from every class.  Returns the key and the classes used
+// ("first:<class>", "later:<class>").
+func c02MixedKey(r *hx.Rng) (string, []string) {
+	var sb strings.Builder
+	var cls []string
+	n := r.Range(1, 4)
+	for i := 0; i < n; i++ {
+		var c int
+		switch {
+		case i == 0 && r.Chance(0.65):
+			c = []int{0, 0, 2}[r.Intn(3)]
+		case i == 0:
+			c = r.Intn(len(c02RuneClasses))
+		case r.Chance(0.4):
+			c = []int{0, 2}[r.Intn(2)]
+		default:
+			c = 1 + r.Intn(len(c02RuneClasses)-1)
+		}
+		rc := c02RuneClasses[c]
+		sb.WriteRune(rc.runes[r.Intn(len(rc.runes))])
+		if i == 0 {
+			cls = append(cls, "first:"+rc.name)
+		} else {
+			cls = append(cls, "later:"+rc.name)
+		}
+	}
+	return sb.String(), cls
+}
+
+var c02FixedMixedKeys = []string{"tempΔ", "résumÉ", "éa", "ßkey", "Δt", "Éa", "ǅx", "aǅ", "a\u00a0b", "a\u2003b", "δ\u2003", "aⒶ", "aⅠ", "ªb", "ʰx", "a漢", "漢a", "a𝐀", "𝐚b", "яЯ", "ǆǄ", "ǆǅ"}
+
+func c02KVLine(r *hx.Rng, o *hx.Out) string {
 	k := c02Keys[r.Intn(len(c02Keys))]
 	v := c02KVals[r.Intn(len(c02KVals))]
+	if r.Chance(0.3) {
+		// mixed-script key: a valid key, or a foreign line because of a
+		// non-ASCII upper-case / white-space rune or a first rune that is not lower case
+		if r.Chance(0.25) {
+			k = c02FixedMixedKeys[r.Intn(len(c02FixedMixedKeys))]
+			o.Dist["kv-key:fixed-mixed-script"]++
+		} else {
+			var cls []string
+			k, cls = c02MixedKey(r)
+			for _, c := range cls {
+				o.Dist["kv-key:"+c]++
+			}
+		}
+		switch r.Intn(6) {
+		case 0:
+			return k + ":"
+		case 1:
+			return k + ":\t" + v
+		}
+		return k + ": " + v
+	}
 	switch r.Intn(14) {
 	case 0:
 		return k + ":" // delete
@@ -455,7 +525,7 @@ func c02Text(r *hx.Rng, o *hx.Out, nlines int) string {
 			line = c02BenchLine(r)
 			o.Dist["lines:bench"]++
 		case p < 65:
-			line = c02KVLine(r)
+			line = c02KVLine(r, o)
 			o.Dist["lines:kv"]++
 		case p < 75:
 			line = c02UnitLine(r)
@@ -484,6 +554,60 @@ func c02Text(r *hx.Rng, o *hx.Out, nlines int) string {
 	return sb.String()
 }
 
+// c02BigText: 50-600 results with distinct random names, configuration values
+// that keep changing, unit / foreign lines in between; more than 64 KiB in all
+// (the scanner's 4 KiB buffer is refilled, shifted and grown many times).
+func c02BigText(r *hx.Rng) (string, int) {
+	nres := r.Range(50, 600)
+	target := 65536 + 1024 + r.Intn(30000)
+	per := target/nres + 1
+	letters := "abcdefghijklmnopqrstuvwxyzABCDEFGHIJKLMNOPQRSTUVWXYZ0123456789_"
+	word := func(n int) string {
+		b := make([]byte, n)
+		for i := range b {
+			b[i] = letters[r.Intn(len(letters))]
+		}
+		return string(b)
+	}
+	var sb strings.Builder
+	for i := 0; i < nres || sb.Len() <= target; i++ {
+		room := per
+		if r.Chance(0.3) {
+			n := r.Intn(per/3 + 2)
+			fmt.Fprintf(&sb, "k%d: %s %d\n", r.Intn(6), word(n), i)
+			room -= n + 8
+		}
+		switch r.Intn(12) {
+		case 0:
+			fmt.Fprintf(&sb, "k%d:\n", r.Intn(6))
+		case 1:
+			fmt.Fprintf(&sb, "Unit %s better=lower\n", []string{"ns/op", "B/op", "u" + word(3)}[r.Intn(3)])
+		case 2:
+			sb.WriteString("--- BENCH: " + word(r.Intn(20)) + "\n")
+		case 3:
+			sb.WriteString("\n")
+		}
+		n := max(room-40, 1) / (1 + r.Intn(2))
+		name := word(1+r.Intn(6)) + strconv.Itoa(i) + "/" + word(1+r.Intn(max(n, 1))) + "=" + word(1+r.Intn(4)) + "-" + strconv.Itoa(1+r.Intn(64))
+		fmt.Fprintf(&sb, "Benchmark%s %d %v ns/op", name, 1+r.Intn(100000), float64(r.Intn(1000000))/8)
+		if r.Chance(0.5) {
+			fmt.Fprintf(&sb, " %d B/op", r.Intn(4096))
+		}
+		if r.Chance(0.2) {
+			fmt.Fprintf(&sb, " %v %s", float64(r.Intn(1000)), "u"+word(2))
+		}
+		if r.Chance(0.1) {
+			sb.WriteString("\r")
+		}
+		sb.WriteString("\n")
+		if i+1 >= nres && sb.Len() > target {
+			break
+		}
+	}
+	s := sb.String()
+	return s, strings.Count(s, "\nBenchmark") + 1
+}
+
 func c02Labels(r *hx.Rng) [][2]string {
 	var out [][2]string
 	n := r.Intn(4)
@@ -496,7 +620,7 @@ func c02Labels(r *hx.Rng) [][2]string {
 }
 
 func genC02(o *hx.Out, r *hx.Rng, tier string, replay string) error {
-	o.Rule = "byte-level benchmark texts: lines weighted 40% benchmark / 25% key-value / 10% unit / 25% foreign, 12% of lines mutated (byte deleted / inserted / replaced, incl. invalid UTF-8 and U+00A0/U+2028), separators from ASCII and Unicode white space, LF / CRLF / CRCRLF endings, missing final newline; read (a) through one benchfmt.Reader reused by Reset over 1-3 inputs with arbitrary initial labels and (b) through benchfmt.Files over 1-4 real files with duplicate paths, label=path arguments and missing files; hostile: 1500 distinct keys / units (intern-table eviction), set/delete/re-set key histories, a 70000-byte line; the caller of the reused Reader may stop after k Scans (also between the records queued by one Unit line) and Reset. Every result is cloned at Scan time and re-serialised at the end. non-trivial = at least one result record; distinct by input bytes"
+	o.Rule = "byte-level benchmark texts: lines weighted 40% benchmark / 25% key-value / 10% unit / 25% foreign, 12% of lines mutated (byte deleted / inserted / replaced, incl. invalid UTF-8 and U+00A0/U+2028), separators from ASCII and Unicode white space, LF / CRLF / CRCRLF endings, missing final newline; read (a) through one benchfmt.Reader reused by Reset over 1-3 inputs with arbitrary initial labels and (b) through benchfmt.Files over 1-4 real files with duplicate paths, label=path arguments and missing files; 30% of the key/value lines carry a mixed-script key of 1-4 runes drawn from rune classes (ASCII / non-ASCII lower case, ASCII / non-ASCII upper case, titlecase, caseless and Other_Lowercase/Other_Uppercase letters, digits, marks, ASCII and non-ASCII white space), and every such rune is also tried alone, first, last and in the middle of a key (directed); inputs of 50-600 results with distinct random names totalling more than 64 KiB (every result cloned at Scan time, all clones re-serialised at the end: Name, configuration values, values); hostile: 1500 distinct keys / units (intern-table eviction), set/delete/re-set key histories, a 70000-byte line; the caller of the reused Reader may stop after k Scans (also between the records queued by one Unit line) and Reset. Every result is cloned at Scan time and re-serialised at the end. non-trivial = at least one result record; distinct by input bytes"
 	o.Add(hx.L(hx.I(0), hx.List(unicodeRanges(unicode.IsSpace)), hx.List(unicodeRanges(unicode.IsLower)), hx.List(unicodeRanges(unicode.IsUpper))),
 		map[string]string{"kind": "tables"}, "tables", false)
 
@@ -534,6 +658,74 @@ func genC02(o *hx.Out, r *hx.Rng, tier string, replay string) error {
 					return err
 				}
 			}
+		}
+	}
+	// directed: keys of key/value lines over the rune classes, ten candidate
+	// lines and then a result that shows which of them took effect
+	{
+		var cands []string
+		cands = append(cands, c02FixedMixedKeys...)
+		for _, a := range c02RuneClasses {
+			for _, x := range a.runes {
+				cands = append(cands, string(x), string(x)+"x", "x"+string(x), "x"+string(x)+"y", "é"+string(x))
+			}
+		}
+		for i := 0; i < len(cands); i += 10 {
+			var sb strings.Builder
+			for j, k := range cands[i:min(i+10, len(cands))] {
+				fmt.Fprintf(&sb, "%s: %d.5\n", k, j)
+			}
+			sb.WriteString("BenchmarkX 1 1 ns/op\n")
+			t := sb.String()
+			o.Count("class:kv-keys-over-rune-classes (directed)")
+			if err := c02Reader(o, []c02File{{Name: "f", Content: strconv.Quote(t)}}, []string{t}, "kv-key-classes"); err != nil {
+				return err
+			}
+		}
+	}
+	// directed: one reader Reset over successive inputs whose first line sets a key
+	// that is / is not an initial label (internal <-> file in one recycled slot)
+	{
+		t1, t2, t3 := "k: v\nBenchmarkX 1 1 ns/op\n", "k: w\nBenchmarkY 1 1 ns/op\nj: 1\nBenchmarkY 2 2 MB/s\n", "BenchmarkZ 1 1 ns/op\nk: u\nBenchmarkZ 2 1 ns/op\n"
+		lab := [][2]string{{"k", "lab"}}
+		seqs := [][]c02File{
+			{{Name: "f", Labels: lab, Content: t1}, {Name: "f", Content: t1}, {Name: "f", Labels: lab, Content: t1}, {Name: "f", Content: t2}},
+			{{Name: "f", Content: t1}, {Name: "f", Labels: lab, Content: t1}, {Name: "f", Content: t1}},
+			{{Name: "f", Labels: lab, Content: t3}, {Name: "f", Content: t1}, {Name: "f", Labels: lab, Content: t3}},
+			{{Name: "f", Content: t2}, {Name: "f", Labels: lab, Content: t3}, {Name: "f", Labels: [][2]string{{"j", "x"}}, Content: t2}, {Name: "f", Content: t1}},
+			{{Name: "f", Labels: lab, Content: t2}, {Name: "f", Labels: lab, Content: t2}},
+		}
+		for _, fs := range seqs {
+			var raw []string
+			for i := range fs {
+				raw = append(raw, fs[i].Content)
+				fs[i].Content = strconv.Quote(fs[i].Content)
+			}
+			o.Count("class:reset:initial-label-key-also-set-by-first-line (directed)")
+			if err := c02Reader(o, fs, raw, "reset-label-first-line"); err != nil {
+				return err
+			}
+		}
+	}
+	// inputs larger than the scanner's buffer, every result cloned at Scan time
+	nBig := 6
+	if tier == "thorough" {
+		nBig = 60
+	}
+	for i := 0; i < nBig; i++ {
+		t, nres := c02BigText(r)
+		files := []c02File{{Name: "big", Content: strconv.Quote(t)}}
+		raw := []string{t}
+		if i%3 == 2 {
+			t2 := c02Text(r, o, 10)
+			files = append(files, c02File{Name: "after", Content: strconv.Quote(t2)})
+			raw = append(raw, t2)
+		}
+		o.Count("class:input>64KiB,all-results-cloned")
+		o.Dist["big-input:results"] += nres
+		o.Dist["big-input:bytes"] += len(t)
+		if err := c02Reader(o, files, raw, "big"); err != nil {
+			return err
 		}
 	}
 	for i := 0; i < nReader; i++ {
@@ -639,6 +831,12 @@ func genC02(o *hx.Out, r *hx.Rng, tier string, replay string) error {
 			n := r.Intn(16)
 			if r.Chance(0.02) {
 				contents = append(contents, hostile(3))
+				continue
+			}
+			if i%100 == 7 && len(contents) == 0 {
+				t, _ := c02BigText(r)
+				contents = append(contents, t)
+				o.Count("class:files:input>64KiB,all-results-cloned")
 				continue
 			}
 			contents = append(contents, c02Text(r, o, n))
